@@ -1096,6 +1096,259 @@ pub fn fdrand(args: &[String]) {
     write_json(&args[3], &json!({"frames": idx["frames"].as_array().unwrap().len(), "runs": runs, "calls": calls, "mismatches": bad, "first": mism, "modes": modes, "samples": samples}));
 }
 
+/// fdtrace <seed> <per> <index.json> <trace.ndjson> <frames.json> <report.json>
+/// Random legal schedules on real frames, recorded as one event per public call (parameters, result, observable state
+/// afterwards) for Trace_FrameDecoder.tla; the abstract frames (walker + regenerated block sizes) go to <frames.json>.
+pub fn fdtrace(args: &[String]) {
+    use rand::{rngs::SmallRng, Rng, SeedableRng};
+    use ruzstd::verif;
+    use std::io::{BufWriter, Write};
+    quiet_panics();
+    let seed: u64 = args[0].parse().unwrap();
+    let per: usize = args[1].parse().unwrap();
+    let idx: Value = serde_json::from_str(&std::fs::read_to_string(&args[2]).unwrap()).unwrap();
+    let mut tw = BufWriter::new(std::fs::File::create(&args[3]).unwrap());
+    let mut rng = SmallRng::seed_from_u64(seed ^ 0xfd7);
+    let mut frames_out: Vec<Value> = vec![];
+    let (mut runs, mut nev, mut skipped, mut truncated_runs, mut reused) = (0u64, 0u64, 0u64, 0u64, 0u64);
+    let mut modes = std::collections::BTreeMap::<String, u64>::new();
+    let mut problems: Vec<Value> = vec![];
+    let mut dec = FrameDecoder::new();
+    dec.set_max_window_size(1 << 31);
+    let mut fresh = true; // the decoder has not been used since it was created (a "new" event was written)
+    let mut emit = |tw: &mut BufWriter<std::fs::File>, v: Value, nev: &mut u64| {
+        serde_json::to_writer(&mut *tw, &v).unwrap();
+        tw.write_all(b"\n").unwrap();
+        *nev += 1;
+    };
+    emit(&mut tw, json!({"ev": "new"}), &mut nev);
+    for fr in idx["frames"].as_array().unwrap() {
+        let frame = std::fs::read(fr["frame"].as_str().unwrap()).unwrap();
+        let content = std::fs::read(fr["content"].as_str().unwrap()).unwrap();
+        let lay = match walk_frame(&frame) {
+            Ok(l) => l,
+            Err(_) => {
+                skipped += 1;
+                continue;
+            }
+        };
+        let blocks = lay["blocks"].as_array().unwrap();
+        if frame.len() > 3_000_000 || blocks.len() > 60 || lay["dict_id"].as_u64().unwrap() != 0 {
+            skipped += 1;
+            continue;
+        }
+        // regenerated size per block from the decoder's block events, constrained by the content length
+        verif::take();
+        verif::set_mask(verif::DEC);
+        let mut o = Vec::with_capacity(content.len() + 16);
+        let ok = { let mut d = FrameDecoder::new(); d.set_max_window_size(1 << 31); d.decode_all_to_vec(&frame, &mut o).is_ok() };
+        let evs = verif::take();
+        verif::set_mask(0);
+        let ds: Vec<u64> = evs.iter().filter(|e| e.kind == "block").map(|e| e.args[3]).collect();
+        if !ok || ds.len() != blocks.len() || ds.iter().sum::<u64>() != content.len() as u64 || o != content {
+            skipped += 1;
+            continue;
+        }
+        let mut consistent = true;
+        let abs_blocks: Vec<Value> = blocks.iter().zip(ds.iter()).map(|(b, d)| {
+            let ty = b["type"].as_u64().unwrap();
+            let size = b["size"].as_u64().unwrap();
+            if ty < 2 && size != *d {
+                consistent = false; // raw / RLE blocks regenerate exactly their size field
+            }
+            let kind = ["raw", "rle", "comp"][ty as usize];
+            json!({"kind": kind, "c": b["c"], "d": d, "last": b["last"], "ok": true})
+        }).collect();
+        if !consistent {
+            problems.push(json!({"frame": fr["name"], "problem": "a raw / RLE block regenerates a size other than its size field"}));
+            continue;
+        }
+        let flen = lay["len"].as_u64().unwrap() as usize;
+        frames_out.push(json!({"name": fr["name"], "hdr": lay["hdr"], "win": lay["win"], "cks": lay["cks"], "len": flen, "blocks": abs_blocks, "rerr": ""}));
+        let fidx = frames_out.len();
+        for _k in 0..per {
+            runs += 1;
+            let mode = ["plain", "stream", "slice"][rng.gen_range(0..3)];
+            *modes.entry(mode.to_string()).or_insert(0) += 1;
+            let chunk = if rng.gen_bool(0.5) { 0 } else { rng.gen_range(1..5000) };
+            let cut = if mode != "slice" && rng.gen_bool(0.2) { truncated_runs += 1; rng.gen_range(0..flen) } else { flen };
+            // a fresh decoder for slice mode and now and then; otherwise the decoder is reused (reset in any state)
+            if mode == "slice" || rng.gen_bool(0.3) {
+                if !fresh {
+                    dec = FrameDecoder::new();
+                    dec.set_max_window_size(1 << 31);
+                    emit(&mut tw, json!({"ev": "new"}), &mut nev);
+                    fresh = true;
+                }
+            } else if !fresh {
+                reused += 1;
+            }
+            let mut dcount: usize = 0; // bytes handed out for the current frame
+            let r = std::panic::catch_unwind(std::panic::AssertUnwindSafe(|| {
+                let post = |dec: &FrameDecoder, dcount: usize| -> Value { json!({"consumed": dec.bytes_read_from_source(), "fin": if dec.is_finished() { "y" } else { "n" }, "can": dec.can_collect(), "delivered": dcount}) };
+                let merge = |mut a: Value, b: Value| -> Value {
+                    for (k, v) in b.as_object().unwrap() {
+                        a[k] = v.clone();
+                    }
+                    a
+                };
+                let mut drain = |dec: &mut FrameDecoder, rng: &mut SmallRng, dcount: &mut usize, tw: &mut BufWriter<std::fs::File>, nev: &mut u64| {
+                    match rng.gen_range(0..4) {
+                        0 => {
+                            let v = dec.collect().unwrap_or_default();
+                            *dcount += v.len();
+                            emit(tw, merge(json!({"ev": "collect", "n": v.len()}), post(dec, *dcount)), nev);
+                        }
+                        1 => {
+                            let n = [0usize, 1, 7, 1000, 4096, 70000, 1 << 20][rng.gen_range(0..7)];
+                            let mut buf = vec![0u8; n];
+                            let k = Read::read(dec, &mut buf).unwrap_or(0);
+                            *dcount += k;
+                            emit(tw, merge(json!({"ev": "read", "n": n, "k": k}), post(dec, *dcount)), nev);
+                        }
+                        _ => {
+                            let sc: Vec<i64> = (0..rng.gen_range(0..4)).map(|_| match rng.gen_range(0..6) { 0 => -1, 1 => 0, 2 => -2, _ => rng.gen_range(1..70000) }).collect();
+                            let mut sink = Sink { script: sc.clone(), got: vec![] };
+                            let r = dec.collect_to_writer(&mut sink);
+                            *dcount += sink.got.len();
+                            emit(tw, merge(json!({"ev": "collect_to", "script": sc, "n": sink.got.len(), "err": r.is_err()}), post(dec, *dcount)), nev);
+                        }
+                    }
+                };
+                match mode {
+                    "plain" => {
+                        let mut src = Src { data: frame[..cut].to_vec(), pos: 0, chunk };
+                        let r = dec.reset(&mut src);
+                        fresh = false;
+                        if r.is_err() {
+                            // nothing else is specified about the decoder after a refused header: start over
+                            emit(&mut tw, json!({"ev": "reset", "i": fidx, "cut": cut, "res": "err", "consumed": -1, "fin": "?", "can": -1, "delivered": -1}), &mut nev);
+                            return true;
+                        }
+                        emit(&mut tw, merge(json!({"ev": "reset", "i": fidx, "cut": cut, "res": "ok"}), post(&dec, 0)), &mut nev);
+                        let mut guard = 0;
+                        while !dec.is_finished() && guard < 5000 {
+                            guard += 1;
+                            let (kind, budget, strat) = match rng.gen_range(0..4) {
+                                0 => ("all", 0usize, BlockDecodingStrategy::All),
+                                1 => { let b = rng.gen_range(0..4); ("blocks", b, BlockDecodingStrategy::UptoBlocks(b)) }
+                                _ => { let b = [0usize, 1, 1000, 100_000, 1 << 20][rng.gen_range(0..5)]; ("bytes", b, BlockDecodingStrategy::UptoBytes(b)) }
+                            };
+                            let r = dec.decode_blocks(&mut src, strat);
+                            emit(&mut tw, merge(json!({"ev": "decode", "kind": kind, "budget": budget, "res": if r.is_ok() { "ok" } else { "err" }}), post(&dec, dcount)), &mut nev);
+                            if r.is_err() {
+                                for _ in 0..rng.gen_range(0..3) {
+                                    drain(&mut dec, &mut rng, &mut dcount, &mut tw, &mut nev);
+                                }
+                                return false;
+                            }
+                            for _ in 0..rng.gen_range(0..3) {
+                                drain(&mut dec, &mut rng, &mut dcount, &mut tw, &mut nev);
+                            }
+                        }
+                        let mut guard = 0;
+                        while dec.can_collect() > 0 && guard < 1000 {
+                            guard += 1;
+                            drain(&mut dec, &mut rng, &mut dcount, &mut tw, &mut nev);
+                        }
+                        false
+                    }
+                    "stream" => {
+                        let src = Src { data: frame[..cut].to_vec(), pos: 0, chunk };
+                        fresh = false;
+                        let mut sd = match StreamingDecoder::new_with_decoder(src, &mut dec) {
+                            Err(_) => {
+                                emit(&mut tw, json!({"ev": "reset", "i": fidx, "cut": cut, "res": "err", "consumed": -1, "fin": "?", "can": -1, "delivered": -1}), &mut nev);
+                                return true;
+                            }
+                            Ok(sd) => sd,
+                        };
+                        emit(&mut tw, merge(json!({"ev": "reset", "i": fidx, "cut": cut, "res": "ok"}), post(&sd.decoder, 0)), &mut nev);
+                        for _ in 0..5000 {
+                            let n = [1usize, 2, 100, 4096, 65536, 200_000][rng.gen_range(0..6)];
+                            let mut buf = vec![0u8; n];
+                            match sd.read(&mut buf) {
+                                Err(_) => {
+                                    emit(&mut tw, merge(json!({"ev": "sread", "n": n, "k": 0, "res": "err"}), post(&sd.decoder, dcount)), &mut nev);
+                                    break;
+                                }
+                                Ok(k) => {
+                                    dcount += k;
+                                    emit(&mut tw, merge(json!({"ev": "sread", "n": n, "k": k, "res": "ok"}), post(&sd.decoder, dcount)), &mut nev);
+                                    if k == 0 {
+                                        break;
+                                    }
+                                }
+                            }
+                        }
+                        false
+                    }
+                    _ => {
+                        let mut pos = 0usize;
+                        let mut offer = rng.gen_range(1..200_000usize);
+                        let mut idle = 0;
+                        fresh = false;
+                        for _ in 0..20000 {
+                            let t = [0usize, 1, 100, 4096, 65536, 300_000][rng.gen_range(0..6)];
+                            let mut tgt = vec![0u8; t];
+                            let end = (pos + offer).min(frame.len());
+                            match dec.decode_from_to(&frame[pos..end], &mut tgt) {
+                                Err(_) => {
+                                    emit(&mut tw, json!({"ev": "from_to", "i": fidx, "offer": end - pos, "t": t, "res": "err", "rd": 0, "wr": 0, "consumed": -1, "fin": "?", "can": -1, "delivered": dcount}), &mut nev);
+                                    if pos == 0 && end < frame.len() && end < 18 {
+                                        offer += 1 + rng.gen_range(0..6);
+                                        continue; // the header was not complete: still a fresh decoder
+                                    }
+                                    return false;
+                                }
+                                Ok((rd, wr)) => {
+                                    pos += rd;
+                                    dcount += wr;
+                                    emit(&mut tw, merge(json!({"ev": "from_to", "i": fidx, "offer": end - pos + rd, "t": t, "res": "ok", "rd": rd, "wr": wr}), post(&dec, dcount)), &mut nev);
+                                    if rd == 0 && wr == 0 {
+                                        idle += 1;
+                                        if (dec.is_finished() && dec.can_collect() == 0 && t > 0) || idle > 40 {
+                                            break;
+                                        }
+                                        offer = (offer * 2).min(140_000).max(offer + 1);
+                                    } else {
+                                        idle = 0;
+                                        if rng.gen_bool(0.3) {
+                                            offer = rng.gen_range(1..200_000usize);
+                                        }
+                                    }
+                                }
+                            }
+                        }
+                        false
+                    }
+                }
+            }));
+            match r {
+                Err(p) => {
+                    problems.push(json!({"frame": fr["name"], "mode": mode, "problem": format!("panic: {}", panic_msg(p))}));
+                    dec = FrameDecoder::new();
+                    dec.set_max_window_size(1 << 31);
+                    emit(&mut tw, json!({"ev": "new"}), &mut nev);
+                    fresh = true;
+                }
+                Ok(start_over) => {
+                    if start_over {
+                        dec = FrameDecoder::new();
+                        dec.set_max_window_size(1 << 31);
+                        emit(&mut tw, json!({"ev": "new"}), &mut nev);
+                        fresh = true;
+                    }
+                }
+            }
+        }
+    }
+    tw.flush().unwrap();
+    write_json(&args[4], &json!({"frames": frames_out, "tool_errors": []}));
+    write_json(&args[5], &json!({"frames": frames_out.len(), "skipped_frames": skipped, "runs": runs, "events": nev, "modes": modes, "truncated_runs": truncated_runs,
+        "runs_on_a_reused_decoder": reused, "problems": problems}));
+}
+
 // ---------------------------------------------------------------------------------------------
 // C10: multi-frame calls and the exhaustive truncation sweep
 // ---------------------------------------------------------------------------------------------
